@@ -1,20 +1,20 @@
 SPECIFICATION Spec
 CONSTANTS
-  Ids = {"n1","n2","n3"}
+  Ids = {"n1","n2"}
   Bk <- BkL
   Buckets = {1}
-  IPs = {"l1"}
-  Subnet <- SubL
+  IPs = {"a1","a2","b1","l1"}
+  Subnet <- SubA
   LAN = {"l1"}
-  Seqs = {1}
+  Seqs = {1,2,3}
   BS = 2
   MR = 1
   BIL = 1
   TIL = 2
   MaxFails = 2
   MinBkt = 1
-  MaxChecks = 3
-  Ops = {"add","delete","reval","track"}
+  MaxChecks = 2
+  Ops = {"add","reval"}
   Devs = {}
 VIEW view
 INVARIANTS SizeBounds Unique RightBucket IPLimits ListConsistent RecConsistent
